@@ -133,11 +133,11 @@ def run(chk):
             else:
                 r4.fail("ObjectPool.get:unknown-object-handed-out", "`%s` appends an object of unknown origin (%s)" % (node_src(node), v), fn=fn, node=node)
     closes = [p for p in dom.accesses if False]
-    after = [n for n in walk_no_nested(fn.node) if isinstance(n, ast.Call) and call_name(n) == "self._after_remove"]
+    after = [p_ for p_ in dom.accesses if False] or [n for m_ in prog.cls("ObjectPool").methods.values() if m_.name == "get" or m_.name.startswith("_") for n in walk_no_nested(m_.node) if isinstance(n, ast.Call) and call_name(n) == "self._after_remove"]
     r4.expect(len(after) >= 1, "get() closes expired objects through _after_remove", "ObjectPool.get:expired-object-not-closed", "get() no longer passes expired objects to _after_remove: their sockets leak", fn=fn)
     r4.floor("hand-over sites in get()", n_app, 1)
-    crea = [n for n in walk_no_nested(fn.node) if isinstance(n, ast.Call) and call_name(n) == "self._obj_creator"]
-    r5.floor("creation sites in get()", len(crea), 1)
+    crea = [n for m_ in prog.cls("ObjectPool").methods.values() for n in walk_no_nested(m_.node) if isinstance(n, ast.Call) and call_name(n) == "self._obj_creator"]
+    r5.floor("creation sites in ObjectPool", len(crea), 1)
     if not [p for p in dom.problems if p[0].startswith("create-before-reuse")]:
         r5.ok("get(): _obj_creator() is reachable only after the free deque was found empty")
     # stamp at hand-over
@@ -162,13 +162,23 @@ def run(chk):
     r7 = chk.rule("C09.R7", "capacity: the value compared with max_size is the length of the guarded deque(s), or a counter that is updated on every path where an object enters or leaves the pool; get() cannot fail after it registered the object")
     pool = prog.cls("ObjectPool")
     getf = prog.method(pool, "get")
-    cmpn = [n for n in walk_no_nested(getf.node) if isinstance(n, ast.Compare) and any(is_self_attr(x, "max_size") for x in ast.walk(n))]
+    # get() and the private helpers it calls
+    scope_fns, todo_f = [], [getf]
+    while todo_f:
+        g_ = todo_f.pop()
+        if g_ in scope_fns:
+            continue
+        scope_fns.append(g_)
+        for n in walk_no_nested(g_.node):
+            if isinstance(n, ast.Call) and isinstance(n.func, ast.Attribute) and is_self_attr(n.func) and n.func.attr in pool.methods and n.func.attr.startswith("_") and n.func.attr not in ("_obj_creator", "_after_remove", "_idle_clock"):
+                todo_f.append(pool.methods[n.func.attr])
+    cmpn = [(g_, n) for g_ in scope_fns for n in walk_no_nested(g_.node) if isinstance(n, ast.Compare) and any(is_self_attr(x, "max_size") for x in ast.walk(n))]
     r7.floor("capacity comparisons in get()", len(cmpn), 1)
-    for c in cmpn:
+    for getf_c, c in cmpn:
         other = [x for x in [c.left] + list(c.comparators) if not any(is_self_attr(y, "max_size") for y in ast.walk(x))]
         src = other[0] if other else None
         if isinstance(src, ast.Name):
-            defs = [n for n in walk_no_nested(getf.node) if isinstance(n, ast.Assign) and any(isinstance(t, ast.Name) and t.id == src.id for t in n.targets)]
+            defs = [n for n in walk_no_nested(getf_c.node) if isinstance(n, ast.Assign) and any(isinstance(t, ast.Name) and t.id == src.id for t in n.targets)]
             src = defs[0].value if len(defs) == 1 else src
 
         def is_len_of_guarded(e):
